@@ -44,3 +44,12 @@ Print Assumptions C11_break_leaks.
 From NV Require Proofs.ExampleFacts.
 Definition C11_nonvacuous := ExampleFacts.C11Example.C11_nonvacuous.
 Print Assumptions C11_nonvacuous.
+
+(* Tie of the models' allocation step to the source (translated structurally, Gen/GenBoxcar.v): a bucket is allocated
+   and every `active` flag cleared BEFORE the compare_exchange that publishes it, and the winner does nothing more
+   to it.  Model/Boxcar.v and Model/BoxcarRA.v treat "allocate + initialise + publish" as one step of the allocating
+   thread; a source in which initialisation follows publication (a published entry can be reset to inactive by the
+   winner's late initialisation loop: a completed push is lost) makes this obligation fail. *)
+Theorem C11_bucket_init_before_publish : bucket_init_before_publish = true.
+Proof. reflexivity. Qed.
+Print Assumptions C11_bucket_init_before_publish.
